@@ -40,7 +40,7 @@ TRUSTED = [
 ]
 ASSUMPTIONS = [
     "programs: trees of calls of 8 real tasks interpreting a data spec (leaf / failure / parallel children / dataflow join / catch "
-    "/ apply_tags / staged children), task variants with check_valid=shallow, cache=False, task-level tags, prov=False at the call; "
+    "/ apply_tags / staged children), task variants with check_valid=shallow, cache=False, definition-level tags (also on a shallow task), prov=False or tags at the call; "
     "1-3 executions per database (replay, mutated program, cache=False run), each by a fresh Scheduler on the same backend",
     "no resource limits, no context, no handles/files, no script tasks, local in-process execution only (one scheduler thread)",
     "the schedule-independence oracle is applied only to programs without failing jobs (which children a failed parent had seen "
@@ -108,8 +108,9 @@ def gen_spec(rng, depth, labels, pool):
 
 
 def gen_call(rng, depth, labels, pool):
-    variant = rng.choice(["A", "A", "A", "A", "B", "B", "S", "N", "T"])
-    opt = "np" if rng.random() < 0.1 else ""
+    variant = rng.choice(["A", "A", "A", "A", "B", "B", "S", "N", "T", "T", "U"])
+    k = rng.random()
+    opt = "np" if k < 0.1 else ("tg" if k < 0.22 else "")
     return (variant, opt, gen_spec(rng, depth, labels, pool))
 
 
@@ -127,7 +128,7 @@ def mutate(rng, spec, labels):
 def gen_history(rng):
     labels = list(range(rng.choice([2, 3, 5])))
     depth = rng.choice([1, 2, 2, 3, 3])
-    root_variant = rng.choice(["A", "A", "A", "B", "S", "T"])
+    root_variant = rng.choice(["A", "A", "A", "B", "S", "T", "U"])
     root_opt = "np" if rng.random() < 0.04 else ""
     pool = []
     spec = gen_spec(rng, depth, labels, pool)
@@ -179,6 +180,14 @@ CORPUS = [
             c("A", S("then", 2, c("A", leaf(1)), c("A", leaf(5)), c("B", leaf(1)))))), "rand")],
     # shallow (ultimate reduction) replay, then a cache=False run
     [E(_P3), E(_P3), E(_P3, "lifo", False)],
+    # tagged calls (definition-level: T, U; call-level: "tg") duplicated in different parents: one twin is served by CSE
+    # (collapse or same-execution hit) and must still get its own job tags
+    [E(c("A", S("par", 0, c("A", S("par", 1, c("T", leaf(1)), c("A", leaf(2), "tg"))), c("B", S("then", 2, c("A", leaf(3)), c("T", leaf(1)),
+            c("A", leaf(2), "tg"), c("A", leaf(2))))))), E(c("A", S("par", 0, c("B", S("par", 1, c("T", leaf(1)), c("A", leaf(2), "tg"))),
+            c("A", S("par", 2, c("T", leaf(1)))))), "lifo")],
+    # a tagged shallow-validity task replayed in a second execution (ultimate-reduction hit), also below another root
+    [E(c("U", S("par", 0, c("A", leaf(1))))), E(c("U", S("par", 0, c("A", leaf(1))))),
+     E(c("A", S("par", 5, c("U", S("par", 0, c("A", leaf(1))), "tg"), c("U", S("par", 0, c("A", leaf(1)))))), "lifo")],
     # root without provenance; a single leaf
     [E(c("A", S("par", 0, c("A", leaf(1))), "np"))],
     [E(c("A", leaf(0)))],
@@ -246,12 +255,17 @@ class Audit:
 
     # -- intended tags of a job, from the program (spec = first positional argument of the variant tasks)
     def intent(self, r):
+        import gm_tasks as T
         vt, jt, et, tt = [], [], [], []
-        if r.task_name == "gm.tT":
-            jt.append(("team", "gm"))
-            tt.append(("team", "gm"))
+        # the tags the call specifies: tags given at the call replace the definition-level ones on the job;
+        # the definition-level tags always go to the task.  Holds for EVERY job that ended with provenance,
+        # whether it ran, was served by CSE / the cache, or collapsed into a twin.
+        task_tags = T.TASK_TAGS.get(r.task_name, [])
+        call_opts = getattr(r.expr_obj, "_options", None) or {}
+        jt.extend(call_opts["tags"] if "tags" in call_opts else task_tags)
+        tt.extend(task_tags)
         spec = None
-        if r.task_name in ("gm.tA", "gm.tB", "gm.tS", "gm.tN", "gm.tT") and r.eval_args:
+        if r.task_name in ("gm.tA", "gm.tB", "gm.tS", "gm.tN", "gm.tT", "gm.tU") and r.eval_args:
             spec = r.eval_args[0][0]
         body_evaluated = r.outcome == "ok" and not (r.entered == "resolve" and r.pre_call_hash)
         if spec is not None and spec[0] == "tags" and body_evaluated:
